@@ -1,6 +1,6 @@
 // Obligation unit `native`: text rendering of a definition (C13, D2) and the entry points of the
 // native builder that attach type information (C18, N1).
-//!min-verified: 12
+//!min-verified: 14
 //!assume: rule R7: `write!(f, ..)?;` statements are dropped (formatter side effects and the early Err return are not modelled); D2's obligation is panic-freedom only
 //!assume: the inner generic builder's add_datum stores the details it is handed verbatim (contract proved in unit builder, restated here as external_body)
 //!assume: TypeResolver is abstract: `type_info::<T>()` / `dynamic_type_info(name)` return the uninterpreted spec values `spec_type_info::<T>()` / `spec_dynamic_type_info(name)` of the resolver
@@ -11,6 +11,8 @@
 //!props fn add_datum_allow_uninit : C18
 //!props fn add_datum_override : C18
 //!props fn copy_datum : C18
+//!props fn remove_datum : C12
+//!props fn build : C12
 #![allow(unused_imports, unused_variables, dead_code, non_snake_case, unused_mut, unused_assignments)]
 use vstd::prelude::*;
 use std::fmt::Formatter;
@@ -185,6 +187,30 @@ impl<D> GenericRecordDefinitionBuilder<D> {
 //@end
 }
 
+// C12 for the native builder: its operations are delegations; each one is extracted and proved to
+// have exactly the effect of the generic builder's operation (whose contract is proved in unit
+// `builder`).  `inner_*` are uninterpreted relations standing for "what the generic operation does".
+pub uninterp spec fn inner_remove<D>(b0: GenericRecordDefinitionBuilder<D>, id: DatumId, b1: GenericRecordDefinitionBuilder<D>, r: Result<(), String>) -> bool;
+pub uninterp spec fn inner_build<D>(b0: GenericRecordDefinitionBuilder<D>, r: RecordDefinition<D>) -> bool;
+
+impl<D> GenericRecordDefinitionBuilder<D> {
+//@fn truc/src/record/definition/builder/generic/mod.rs :: impl<D> GenericRecordDefinitionBuilder<D> :: fn remove_datum
+//@ attr #[verifier::external_body]
+//@ sig-only
+//@ ret r
+//@ ensures
+        inner_remove(*old(self), datum_id, *final(self), r)
+//@end
+
+//@fn truc/src/record/definition/builder/generic/mod.rs :: impl<D> GenericRecordDefinitionBuilder<D> :: fn build
+//@ attr #[verifier::external_body]
+//@ sig-only
+//@ ret r
+//@ ensures
+        inner_build(self, r)
+//@end
+}
+
 /// the details recorded for the datum an entry point just added
 pub open spec fn recorded<R: TypeResolver>(b: NativeRecordDefinitionBuilder<R>, id: DatumId) -> NativeDatumDetails {
     b.inner.datum_definitions.data@[id.0 as int].details
@@ -231,6 +257,19 @@ where
 
 // add_dynamic_datum: `T: AsRef<str>` -- AsRef's PointeeSized bound cannot be declared to this Verus (external_trait_specification
 // bound mismatch); the function is NOT under contract here (listed as unchecked in the evidence of C18).
+
+//@fn truc/src/record/definition/builder/native/mod.rs :: impl<R> NativeRecordDefinitionBuilder<R> where R: TypeResolver, :: fn remove_datum
+//@ ret r
+//@ ensures
+        inner_remove(old(self).inner, datum_id, final(self).inner, r), // [C12]
+        final(self).type_resolver == old(self).type_resolver,
+//@end
+
+//@fn truc/src/record/definition/builder/native/mod.rs :: impl<R> NativeRecordDefinitionBuilder<R> where R: TypeResolver, :: fn build
+//@ ret r
+//@ ensures
+        inner_build(self.inner, r), // [C12]
+//@end
 
 //@fn truc/src/record/definition/builder/native/mod.rs :: impl<R> NativeRecordDefinitionBuilder<R> where R: TypeResolver, :: fn copy_datum
 //@ ret r
